@@ -275,6 +275,33 @@ func runC12(r *core.Run) {
 			return strings.Join(items, ",")
 		})
 
+	type kmerPair struct {
+		A core.S `json:"seq_a"`
+		B core.S `json:"seq_b"`
+		K int    `json:"k"`
+	}
+	core.Clause(r, "two-kmer-iterators-interleaved", core.Opts{Rule: "two CanonicalSubsequences iterators over two different sequences alive at once on one goroutine: every interleaving of the pulls, either one abandoned at any point, a plain run of each afterwards; each yields exactly its own items; every ordered pair of sequences over ACGT up to length 3 plus 3 longer ones x k in 1..2; non-trivial = both yield at least one item"},
+		func(emit func(kmerPair) bool) {
+			seqs := append(enum.AllStrings("ACGT", 3)[1:], "GATTACA", "TTGCA", "ACGTN")
+			for _, a := range seqs {
+				for _, b := range seqs {
+					if len(a)+len(b) > 9 {
+						continue
+					}
+					for k := 1; k <= 2; k++ {
+						if !emit(kmerPair{core.S(a), core.S(b), k}) {
+							return
+						}
+					}
+				}
+			}
+		},
+		func(c kmerPair) core.Outcome {
+			str := func(b []byte) string { return string(b) }
+			return interleavedSeqs(fmt.Sprintf("CanonicalSubsequences(%q,%d) and (%q,%d)", c.A, c.K, c.B, c.K),
+				asStrings1(sequtil.CanonicalSubsequences(c.A.B(), c.K), str), asStrings1(sequtil.CanonicalSubsequences(c.B.B(), c.K), str))
+		})
+
 	core.Clause(r, "dst-contents", core.Opts{Rule: dstRule},
 		genDstCases([]string{"", "A", "n", "AACTTGGGn", "acgtnNACGTTTgacN", "ACXG", "\x00", "AC\x00", "ACG\xff"}),
 		checkDstContract("ReverseComplement", sequtil.ReverseComplement, ref.RevComp))
